@@ -1,7 +1,7 @@
 (* C13 - Tags on the wire are exactly the type's tags.
    Only statements closed by [exact]; proofs live in Proofs/. *)
 From PV Require Import Base.Bytes Model.Tag Model.Types Model.TableTypes Model.Enc Model.Dec Gen.Tables
-     Model.Obs Proofs.TagOctets Proofs.TagAlgebra Proofs.Spine Proofs.TagsetShape Proofs.DecFrame Proofs.RoundTrip1 Proofs.TagReject.
+     Model.Obs Proofs.TagOctets Proofs.TagAlgebra Proofs.Spine Proofs.TagsetShape Proofs.DecFrame Proofs.RoundTrip1 Proofs.TagReject Proofs.RoundTrip3b Proofs.RoundTrip3e.
 Local Open Scope N_scope.
 
 (* identifier octets round trip for every class, form and number (no bound on the number) *)
@@ -113,3 +113,12 @@ Example C13_ambiguous_encoding_witness :
      = Ok (DV (TImp (mkTag Ctx false 0) TOcts) (VOcts [7; 8]), [])
   /\ decode DER (Some (TImp (mkTag Ctx false 0) TOcts)) [160; 4; 4; 2; 7; 8] = Err EMalformed.
 Proof. vm_compute. repeat split. Qed.
+
+(* acceptance with the own type, over the whole universe: every base type (constructed ones included)
+   under every stack of taggings *)
+Theorem C13_accepts_own_stage3 : forall ce cd T v b tl,
+  enc_ok ce -> stage3_ty false ce T = true -> stage3_val ce cd T v = true ->
+  encode ce true 0 T v = Ok b -> N.of_nat (length b) <= index_max ->
+  exists v', decode cd (Some T) (b ++ tl) = Ok (DV T v', tl) /\ abs T v' = abs T v.
+Proof. exact roundtrip_stage3. Qed.
+Print Assumptions C13_accepts_own_stage3.
